@@ -73,7 +73,7 @@ def routeFracs (lostMapped : Bool) (period : Int) : List (String × Nat) → Lis
 
 /-- rows available on a sheet after `append_rows(MIN_ROWS + count + 1)` for every type of the sheet and every asset so far -/
 def capacityAfter (lostMapped : Bool) (templateRows : Nat) (cs : List Computed) (s : String) : Nat :=
-  templateRows + (cs.map fun c => ((typesOf lostMapped s).map fun t => 20 + (c.fracs.filter (fun f => f.f.ev.typ == t)).length + 1).foldl (· + ·) 0).foldl (· + ·) 0
+  templateRows + (cs.map fun c => ((typesOf lostMapped s).map fun t => 20 + (c.fracs.filter (fun f => f.f.ev.typ == t)).length + 1).sum).sum
 
 /-- `tax_report_us/ie.generate`: fails with a `KeyError` when a fraction's type has no sheet (F11: LOST in the shipped IE map) and
     with an `IndexError` if a sheet were too small; otherwise every fraction is written and unused sheets are removed -/
